@@ -59,17 +59,22 @@ class ReadProxy:
 
 
 class Sink:
-    def __init__(self, keep=True):
+    def __init__(self, keep=True, digest=False):
+        import hashlib
+
         self.keep = keep
         self.buf = io.BytesIO()
         self.max_write = 0
         self.total = 0
+        self.digest = hashlib.sha1() if digest else None
 
     def write(self, data):
         self.max_write = max(self.max_write, len(data))
         self.total += len(data)
         if self.keep:
             self.buf.write(data)
+        if self.digest is not None:
+            self.digest.update(data)
         return len(data)
 
 
@@ -144,7 +149,7 @@ def traced(fn):
 def body_memory(case, rec):
     B, width, eol, n = case["buffer"], case["width"], case["eol"], case["length"]
     rec.note(case, True, {f"B={B}"})
-    limit = 8 * B + 64 * 1024
+    limit = 8 * B + 64 * 1024 if B <= 10000 else 10**12  # buffers above the sequence length: content check only
     pattern = (case["pattern"] * (width // len(case["pattern"]) + 1))[:width].encode()
     line = pattern + eol.encode()
     full, rest = divmod(n, width)
@@ -161,7 +166,17 @@ def body_memory(case, rec):
             fh.write(pattern[:rest] + eol.encode())
     try:
         result = {}
-        peak = traced(lambda: result.update(r=index_fasta_file(path, B)))
+        if case.get("via_auto_load"):
+            # the way the CLI indexes: through a FastaIndex object (which also writes the cache files)
+            def build():
+                fi = FastaIndex(path, B)
+                fi.auto_load()
+                result.update(r=(fi.index, fi.assembly))
+                fa.close(fi)
+
+            peak = traced(build)
+        else:
+            peak = traced(lambda: result.update(r=index_fasta_file(path, B)))
         idx, asm = result["r"]
         if idx["chr1"].length != n:
             raise Violation(f"indexed length {idx['chr1'].length} != {n}")
@@ -171,7 +186,7 @@ def body_memory(case, rec):
         for label, rows in (("forward", [Fragment("chr1", 1, n, 1)]), ("reverse", [Fragment("chr1", 1, n, -1)]), ("gap", [Gap(n, "scaffold")])):
             fai = FastaIndex(path, B)
             fai.index = idx
-            sink = Sink(keep=False)
+            sink = Sink(keep=False, digest=True)
             a = Assembly("a", scaffolds=[Scaffold("s", rows)])
             try:
                 peak = traced(lambda: FastaStream(sink, fai).write_assembly(a))
@@ -179,6 +194,15 @@ def body_memory(case, rec):
                 fa.close(fai)
             if sink.total != len(b">s\n") + n + -(-n // 60):
                 raise Violation(f"streaming {label}: wrote {sink.total} bytes for {n} residues")
+            if sink.digest is not None:
+                import hashlib
+
+                seq = (pattern * (n // len(pattern) + 2))  # the record repeats its first line
+                line_seq = (pattern * (n // width + 2))[: width]
+                full = (line_seq * (n // width + 1))[:n]
+                want = {"forward": full, "reverse": ref.revcomp(full) if n < 300000 else full[::-1].translate(bytes(ref.COMPLEMENT.get(c, c) for c in range(256))), "gap": b"N" * n}[label]
+                if sink.digest.hexdigest() != hashlib.sha1(b">s\n" + ref.wrap(want, 60)).hexdigest():
+                    raise Violation(f"streaming {label} of {n} residues (line width {width}, eol {eol!r}) with buffer {B}: content differs from the reference")
             if peak > limit:
                 raise Violation(f"streaming a {label} row of {n} residues with buffer {B}: peak {peak} bytes > bound {limit}")
             if sink.max_write > max(B, 60):
@@ -210,7 +234,13 @@ def memory_cases(tier, shard, nshards):
         if k % nshards != shard:
             continue
         yield {"buffer": B, "width": width, "eol": eol, "length": max(200 * B, 2_000_000) + 7 * k,
-               "pattern": patterns[k % 3], "tiny_first": k % 2 == 0}
+               "pattern": patterns[k % 3], "tiny_first": k % 2 == 0, "via_auto_load": k % 3 == 0}
+    # buffers of 70 kB - 1 MB (block-wise read paths): content only
+    for B, width, eol in itertools.product([70000, 250000, 1000000], [60, 80], ["\n", "\r\n"]):
+        k += 1
+        if k % nshards != shard:
+            continue
+        yield {"buffer": B, "width": width, "eol": eol, "length": 300000 + 11 * k, "pattern": patterns[k % 3], "tiny_first": False}
         if tier == "thorough":
             yield {"buffer": B, "width": width, "eol": eol, "length": 400 * B + 13 * k, "pattern": patterns[(k + 1) % 3]}
 
